@@ -65,6 +65,7 @@ class Contract:
     holds: List[tuple] = field(default_factory=list)   # (var, decl_regex, until_regex, oid, tags, src)
     callsites: List[tuple] = field(default_factory=list)  # (call_regex, oid, tags): this fn is the only caller
     nohandle: List[tuple] = field(default_factory=list)   # (init_regex, at_regex, oid, tags): no local initialised by <init> is alive at <at>
+    order: List[tuple] = field(default_factory=list)   # (first_regex, then_regex, oid, tags): the first statement precedes the second one
     mustcall: List[tuple] = field(default_factory=list)   # (call_regex, oid, tags): called unconditionally (top block of the body)
     sameas: Optional[tuple] = None   # (addr, regex, replacement, oid suffix, src)
     contains: List[tuple] = field(default_factory=list)   # (regex, oid, tags): the body still contains the call
@@ -196,6 +197,11 @@ def parse_file(path: str) -> List[Contract]:
             if not mm:
                 raise ContractError('%s: @holds <var> from /re/ until /re/ <id> [tags]' % where)
             cur.holds.append((mm.group(1), mm.group(2), mm.group(3), mm.group(4), mm.group(5).split(), where))
+        elif d == 'order':
+            mm = re.match(r'/(.*?)/\s+before\s+/(.*)/\s+(\S+)\s+\[([^\]]*)\]\s*$', arg)
+            if not mm:
+                raise ContractError('%s: @order /first-regex/ before /then-regex/ <id> [tags]' % where)
+            cur.order.append((mm.group(1), mm.group(2), mm.group(3), mm.group(4).split()))
         elif d == 'nohandle':
             mm = re.match(r'/(.*?)/\s+at\s+/(.*)/\s+(\S+)\s+\[([^\]]*)\]\s*$', arg)
             if not mm:
